@@ -115,7 +115,7 @@ func init() {
 
 	h.Register(&h.Monitor{
 		ID: "C09",
-		Rule: "every 3- and 4-vertex ring on the 4x4 integer grid (thorough: also every 5-vertex ring) against all 81 points of the half-step lattice [-0.5,3.5]^2, each ring in every rotation, reversed, closed and unclosed; plus random rings of 3..12 vertices on a 16x16 grid (repeated, collinear, axis-parallel edges) with quarter-step queries, polygons with 1-3 holes and multi-polygons. " +
+		Rule: "every 3- and 4-vertex ring on the 4x4 integer grid, the 4-vertex rings also translated by (-2,-2) so that negative coordinates occur (thorough: also every 5-vertex ring) against all 81 points of the half-step lattice [-0.5,3.5]^2, each ring in every rotation, reversed, closed and unclosed; plus random rings of 3..12 vertices on a 16x16 grid (repeated, collinear, axis-parallel edges) with quarter-step queries, polygons with 1-3 holes and multi-polygons. " +
 			"non-trivial = ring has non-zero area (exact shoelace); distinct = hash of the vertex list",
 		MinNontrivial: h.Fixed(20000, 200000),
 		Assumptions:   []string{"oracle: exact crossing number with explicit on-segment test (exact orientation predicate on dyadic coordinates)"},
@@ -143,6 +143,23 @@ func init() {
 				},
 			},
 			{
+				// the same space translated by (-2,-2): negative, zero and positive coordinates
+				Name: "grid-4-shifted-negative", Count: h.Fixed(65536, 65536), Exhaustive: h.Always,
+				Run: func(c *h.Ctx, idx uint64, r *h.Rand) {
+					sh := func(p P) P { return P{p[0] - 2, p[1] - 2} }
+					ring := []P{sh(g4(idx / 4096)), sh(g4((idx / 256) % 16)), sh(g4((idx / 16) % 16)), sh(g4(idx % 16))}
+					lat := make([]P, len(c09lattice))
+					for i, q := range c09lattice {
+						lat[i] = sh(q)
+					}
+					c09ring(c, ring, lat)
+					if exact.Area2(ring).Sign() != 0 {
+						c.Nontrivial(c.CaseHash())
+						c.Sample(map[string]interface{}{"ring": ring, "queries": "81 lattice points of [-2.5,1.5]^2"})
+					}
+				},
+			},
+			{
 				Name: "grid-5", Count: h.Fixed(0, 1048576), Exhaustive: h.ThoroughOnly,
 				Run: func(c *h.Ctx, idx uint64, r *h.Rand) {
 					ring := []P{g4(idx / 65536), g4((idx / 4096) % 16), g4((idx / 256) % 16), g4((idx / 16) % 16), g4(idx % 16)}
@@ -157,10 +174,14 @@ func init() {
 				Name: "random-rings", Count: h.Fixed(20000, 2000000),
 				Run: func(c *h.Ctx, idx uint64, r *h.Rand) {
 					n := r.Range(3, 12)
-					ring := randRing(r, n, 16, 0, 0)
+					ox, oy := float64(r.Range(-16, 0)), float64(r.Range(-16, 0))
+					if r.Bool() {
+						ox, oy = 0, 0
+					}
+					ring := randRing(r, n, 16, ox, oy)
 					var pts []P
 					for i := 0; i < 40; i++ {
-						pts = append(pts, P{float64(r.Range(-4, 68)) / 4, float64(r.Range(-4, 68)) / 4})
+						pts = append(pts, P{ox + float64(r.Range(-4, 68))/4, oy + float64(r.Range(-4, 68))/4})
 					}
 					// queries on vertices and edge midpoints too
 					for i := range ring {
@@ -183,13 +204,17 @@ func init() {
 					np := r.Range(1, 3)
 					var mp orb.MultiPolygon
 					var model [][][]P
+					pox, poy := 0.0, 0.0
+					if r.Bool() {
+						pox, poy = float64(r.Range(-20, -4)), float64(r.Range(-20, -4))
+					}
 					for k := 0; k < np; k++ {
 						var poly orb.Polygon
 						var rings [][]P
-						outer := randRing(r, r.Range(3, 8), 12, float64(r.Intn(6)), float64(r.Intn(6)))
+						outer := randRing(r, r.Range(3, 8), 12, float64(r.Intn(6))+pox, float64(r.Intn(6))+poy)
 						rings = append(rings, outer)
 						for hcount := r.Intn(4); hcount > 0; hcount-- {
-							rings = append(rings, randRing(r, r.Range(3, 6), 6, float64(r.Intn(10)), float64(r.Intn(10))))
+							rings = append(rings, randRing(r, r.Range(3, 6), 6, float64(r.Intn(10))+pox, float64(r.Intn(10))+poy))
 						}
 						for _, rr := range rings {
 							v := rr
@@ -202,7 +227,7 @@ func init() {
 						model = append(model, rings)
 					}
 					for i := 0; i < 60; i++ {
-						q := P{float64(r.Range(-4, 76)) / 4, float64(r.Range(-4, 76)) / 4}
+						q := P{pox + float64(r.Range(-4, 76))/4, poy + float64(r.Range(-4, 76))/4}
 						if i%3 == 0 { // a vertex of some ring
 							rs := model[r.Intn(len(model))]
 							rr := rs[r.Intn(len(rs))]
